@@ -15,7 +15,10 @@
    now + tau, and otherwise reports a time-out at now + tau + jit(now) ([jit]: how late that timer
    fires; the theorems bound it by a slack eps, the exact ones set it to 0); an async timer with
    deadline dl fires at dl + jit(dl) unless the inner future completed on an arrival earlier than
-   dl; sending and computing take no time.  A TCP peer is the delay after which it accepts, the
+   dl; in the blocking client, whose control flow depends on clock readings, handling a delivered
+   datagram or TCP byte takes proc(instant) ([proc]: CPU time; bounded by eps like [jit], 0 in the
+   exact theorems) — for the async clients, whose code never reads a clock, CPU time is part of the
+   timers' lateness; sending takes no time.  A TCP peer is the delay after which it accepts, the
    instants at which the bytes of its reply become readable and the instant it closes. *)
 From RsdnsModel Require Import Base GenHeader GenClient Client.
 Open Scope N_scope.
@@ -40,6 +43,7 @@ Section Timed.
 Variable acc : list byte -> res (option N).
 Variables (start lifetime : N) (qt : option N).
 Variable jit : N -> N.
+Variable proc : N -> N.
 Variable buf_len : N.
 
 (* ================================================================ blocking client *)
@@ -52,7 +56,7 @@ Fixpoint std_recv_loop (qs : N) (arrs : list arrival) (now : N) : res (list byte
     | [] => (Err IO_TIMEDOUT, now + tau + jit now, [])
     | (t, d) :: rest =>
       if t <? now + tau then
-        let now' := N.max now t in
+        let now' := N.max now t + proc (N.max now t) in
         match acc d with
         | Ok (Some fl) => (Ok (d, fl), now', rest)
         | Ok None => std_recv_loop qs rest now'                     (* continue *)
@@ -94,7 +98,7 @@ Fixpoint std_tcp_read (timeout_at : N -> res N) (need : nat) (bs : list (N * byt
     | Ok tau =>
       match bs with
       | (t, b) :: rest =>
-        if t <? now + tau then std_tcp_read timeout_at k rest eof (N.max now t) (got ++ [b])
+        if t <? now + tau then std_tcp_read timeout_at k rest eof (N.max now t + proc (N.max now t)) (got ++ [b])
         else (Err IO_TIMEDOUT, now + tau + jit now, bs)
       | [] =>
         match eof with
@@ -250,20 +254,20 @@ Definition filter_of (std : bool) (q : tquery) : list byte -> res (option N) :=
   accept_datagram std (tq_id q) (tq_name q) (tq_type q) (tq_class q).
 
 (* one raw query of a client, over time: transmissions, exchanges started, outcome, instant *)
-Definition client_query_timed (std smol : bool) (q : tquery) (lifetime : N) (qt : option N) (jit : N -> N) (buf_len strategy : N)
+Definition client_query_timed (std smol : bool) (q : tquery) (lifetime : N) (qt : option N) (jit proc : N -> N) (buf_len strategy : N)
            (arrs : list arrival) (srv : tcp_peer) : list N * list event * res (list byte) * N :=
-  if std then std_query (filter_of true q) (tq_start q) lifetime qt jit buf_len (exchange_fuel lifetime) strategy (deliver buf_len arrs) srv
+  if std then std_query (filter_of true q) (tq_start q) lifetime qt jit proc buf_len (exchange_fuel lifetime) strategy (deliver buf_len arrs) srv
   else async_query (filter_of false q) (tq_start q) lifetime qt jit buf_len smol (exchange_fuel lifetime) strategy (deliver buf_len arrs) srv.
 
 (* the queries of one client object share its UDP socket: what one exchange leaves in the queue
    (late answers, junk) is what the next one finds there *)
-Fixpoint udp_history (std smol : bool) (lifetime : N) (qt : option N) (jit : N -> N) (qs : list tquery) (queue : list arrival)
+Fixpoint udp_history (std smol : bool) (lifetime : N) (qt : option N) (jit proc : N -> N) (qs : list tquery) (queue : list arrival)
   : list (list N * res (list byte * N) * N) :=
   match qs with
   | [] => []
   | q :: more =>
-    match (if std then std_udp_exchange (filter_of true q) (tq_start q) lifetime qt jit (exchange_fuel lifetime) queue (tq_start q)
+    match (if std then std_udp_exchange (filter_of true q) (tq_start q) lifetime qt jit proc (exchange_fuel lifetime) queue (tq_start q)
            else async_udp_exchange (filter_of false q) (tq_start q) lifetime qt jit smol (exchange_fuel lifetime) queue (tq_start q)) with
-    | (s, r, t, queue') => (s, r, t) :: udp_history std smol lifetime qt jit more queue'
+    | (s, r, t, queue') => (s, r, t) :: udp_history std smol lifetime qt jit proc more queue'
     end
   end.
